@@ -366,6 +366,8 @@ def run_check(prop, tier, seed, replay=None):
                 "axioms used: " + ", ".join(sorted({a for ax in audit.values() if ax for a in ax})) if audit else "axioms: (build failed)",
                 "hand-written model tied to /repo by the correspondence run below (differential testing, not proof)",
                 "harness/src/*.rs canonical printing; Lean compiler executes the model as defined",
+                "lean/PppModel/Spec/*.lean restate the protocol text (wire format, TLV walk, line grammar, RFC 4291 forms): trusted to say what the property says",
+                "std functions the crate calls (from_utf8, u16/Ipv4Addr/Ipv6Addr from_str and Display, splitn, write_all) are modelled, not verified; compared with the real std through the line protocol",
             ],
             "theorems": {n: audit.get(n) for n in names},
             "evaluations": evaluations,
